@@ -117,7 +117,7 @@ def check_string(t, parser, PathErr, s, part):
     except Reject:
         pass
     r = safe(parser.parse, s)
-    t.case(part, s, nontrivial=True)
+    t.case(part, s, nontrivial=True, sample={'expr': s, 'strict': repr(strict)[:80], 'lenient': repr(lenient)[:80]})
     if r[0] != 'ok':
         if not isinstance(r[1], PathErr):
             t.violation('C15', 'parse(%r) raises %s instead of the path-parsing error' % (s, type(r[1]).__name__), {'expr': s},
